@@ -201,7 +201,9 @@ func (w *World) cloneSetActions(cs *kruisev1alpha1.CloneSet) []EnvAction {
 	}
 	v := w.viewCloneSet(cs)
 	var out []EnvAction
-	a := func(kind, arg string) { out = append(out, EnvAction{Kind: kind, Ns: cs.Namespace, Name: cs.Name, Arg: arg}) }
+	a := func(kind, arg string) {
+		out = append(out, EnvAction{Kind: kind, Ns: cs.Namespace, Name: cs.Name, Arg: arg})
+	}
 	if len(v.pods) < v.replicas {
 		a(EnvCSScaleUp, "")
 	}
@@ -318,7 +320,9 @@ func rsRevision(rs *appsv1.ReplicaSet) int {
 // controller then only syncs status and scales proportionally.
 func (w *World) deploymentActions(d *appsv1.Deployment) []EnvAction {
 	var out []EnvAction
-	a := func(kind, name, arg string) { out = append(out, EnvAction{Kind: kind, Ns: d.Namespace, Name: name, Arg: arg}) }
+	a := func(kind, name, arg string) {
+		out = append(out, EnvAction{Kind: kind, Ns: d.Namespace, Name: name, Arg: arg})
+	}
 	v := w.viewDeployment(d)
 	// ReplicaSet controller + status
 	for _, rs := range v.rss {
